@@ -701,6 +701,199 @@ example :
 
 end Nri.Balloons
 
+/-! ### instance limits (MinBalloons / MaxBalloons) -/
+namespace Nri.Balloons
+
+/-- every balloon type has at most MaxBalloons and at least MinBalloons instances; instances are distinct -/
+structure InstInv (r : RState) : Prop where
+  nodup : r.live.Nodup
+  max : ∀ k, (r.defs k).maxB > 0 → countOf r k ≤ (r.defs k).maxB
+  min : ∀ k, (r.defs k).minB ≤ countOf r k
+
+theorem countOf_congr (r r' : RState) (hl : r'.live = r.live) (hd : r'.defOf = r.defOf) (k : Nat) : countOf r' k = countOf r k := by
+  simp [countOf, hl, hd]
+
+theorem assign_shape (r r' : RState) (i : Nat) (ctr : String) (milli : Nat) (pick : List Nat) (h : RInv r)
+    (ha : assign r i ctr milli pick = some r') : r'.live = r.live ∧ r'.defOf = r.defOf ∧ r'.defs = r.defs := by
+  unfold assign at ha
+  simp only [] at ha
+  split at ha; · cases ha
+  split at ha; · cases ha
+  split at ha; · cases ha
+  split at ha
+  · cases hrs : resize r i (max 1 (requested (r.members i) + milli)) pick with
+    | none => rw [hrs] at ha; cases ha
+    | some r1 =>
+      rw [hrs] at ha
+      simp only [Option.map_some, Option.some.injEq] at ha
+      subst ha
+      obtain ⟨_, _, _, hd, hdo, _, hl⟩ := resize_spec r r1 i _ pick h.core hrs
+      exact ⟨hl, hdo, hd⟩
+  · simp only [Option.map_some, Option.some.injEq] at ha
+    subst ha
+    exact ⟨rfl, rfl, rfl⟩
+
+theorem dismiss_shape (r r' : RState) (i : Nat) (ctr : String) (pick : List Nat) (h : RInv r)
+    (hd : dismiss r i ctr pick = some r') : r'.live = r.live ∧ r'.defOf = r.defOf ∧ r'.defs = r.defs := by
+  unfold dismiss at hd
+  simp only [] at hd
+  split at hd; · cases hd
+  split at hd; · cases hd
+  split at hd
+  · obtain ⟨_, _, _, hdf, hdo, _, hl⟩ := resize_spec { r with members := updM r.members i ((r.members i).filter (fun m => m.1 != ctr)) } r' i _ pick h.core hd
+    exact ⟨hl, hdo, hdf⟩
+  · obtain ⟨_, _, _, hdf, hdo, _, hl⟩ := resize_spec { r with members := updM r.members i ((r.members i).filter (fun m => m.1 != ctr)) } r' i _ pick h.core hd
+    exact ⟨hl, hdo, hdf⟩
+
+theorem inst_of_shape (r r' : RState) (h : InstInv r) (hs : r'.live = r.live ∧ r'.defOf = r.defOf ∧ r'.defs = r.defs) : InstInv r' := by
+  obtain ⟨hl, hd, hdf⟩ := hs
+  refine ⟨by rw [hl]; exact h.nodup, ?_, ?_⟩
+  · intro k hk; rw [countOf_congr r r' hl hd, hdf]; rw [hdf] at hk; exact h.max k hk
+  · intro k; rw [countOf_congr r r' hl hd, hdf]; exact h.min k
+
+/-- **newBalloon respects MaxBalloons** (and keeps MinBalloons) -/
+theorem create_inst (r r' : RState) (i k : Nat) (pick : List Nat) (hr : RInv r) (h : InstInv r) (hc : create r i k pick = some r') : InstInv r' := by
+  unfold create at hc
+  simp only [] at hc
+  split at hc; · cases hc
+  rename_i hnl
+  split at hc; · cases hc
+  split at hc; · cases hc
+  rename_i hguard
+  have hni : i ∉ r.live := by simpa using hnl
+  obtain ⟨_, _, _, hdf, hdo, _, hl⟩ := resize_spec { r with defOf := fun j => if j = i then k else r.defOf j, live := i :: r.live } r' i _ pick hr.core hc
+  simp only [] at hdf hdo hl
+  have hcount : ∀ k', countOf r' k' = (if k = k' then 1 else 0) + countOf r k' := by
+    intro k'
+    simp only [countOf, hl, hdo, List.filter_cons, if_true]
+    have hrest : (r.live.filter (fun j => (if j = i then k else r.defOf j) == k')) = r.live.filter (fun j => r.defOf j == k') := by
+      apply List.filter_congr
+      intro j hj
+      have : j ≠ i := fun e => hni (e ▸ hj)
+      simp [this]
+    by_cases hk : k = k'
+    · subst hk; simp [hrest]; omega
+    · have : (k == k') = false := by simpa using hk
+      simp [this, hk, hrest]
+  refine ⟨by rw [hl]; exact List.nodup_cons.mpr ⟨hni, h.nodup⟩, ?_, ?_⟩
+  · intro k' hk'
+    rw [hcount k', hdf]
+    rw [hdf] at hk'
+    by_cases hk : k = k'
+    · subst hk
+      simp only [if_true]
+      have := h.max k hk'
+      have hg : ¬ ((r.defs k).maxB > 0 ∧ (r.defs k).maxB ≤ countOf r k) := hguard
+      omega
+    · simp only [hk, if_false]; have := h.max k' hk'; omega
+  · intro k'
+    rw [hcount k', hdf]
+    have := h.min k'
+    omega
+
+theorem filter_length_erase (l : List Nat) (i : Nat) (p : Nat → Bool) (hnd : l.Nodup) (hi : i ∈ l) :
+    ((l.filter (fun a => a != i)).filter p).length + (if p i then 1 else 0) = (l.filter p).length := by
+  induction l with
+  | nil => cases hi
+  | cons x xs ih =>
+    rw [List.nodup_cons] at hnd
+    by_cases hx : x = i
+    · subst hx
+      have hxs : xs.filter (fun a => a != x) = xs := by
+        apply List.filter_eq_self.mpr
+        intro a ha
+        have : a ≠ x := fun e => hnd.1 (e ▸ ha)
+        simpa using this
+      have h1 : (x :: xs).filter (fun a => a != x) = xs := by
+        rw [List.filter_cons]
+        simp only [bne_self_eq_false, Bool.false_eq_true, if_false]
+        exact hxs
+      rw [h1, List.filter_cons]
+      by_cases hp : p x = true
+      · simp only [hp, if_true, List.length_cons]
+      · simp only [hp, Bool.false_eq_true, if_false]; omega
+    · have hi' : i ∈ xs := by
+        rcases List.mem_cons.mp hi with e | h
+        · exact absurd e.symm hx
+        · exact h
+      have ih' := ih hnd.2 hi'
+      have hne : (x != i) = true := by simpa using hx
+      have h1 : (x :: xs).filter (fun a => a != i) = x :: xs.filter (fun a => a != i) := by
+        rw [List.filter_cons]; simp only [hne, if_true]
+      rw [h1, List.filter_cons, List.filter_cons]
+      by_cases hp : p x = true
+      · simp only [hp, if_true, List.length_cons]; omega
+      · simp only [hp, Bool.false_eq_true, if_false]; exact ih'
+
+/-- **freeBalloon/deleteBalloon respects MinBalloons** (and keeps MaxBalloons) -/
+theorem delete_inst (r r' : RState) (i : Nat) (h : InstInv r) (hd : delete r i = some r') : InstInv r' := by
+  unfold delete at hd
+  split at hd; · cases hd
+  rename_i hlive
+  split at hd; · cases hd
+  split at hd; · cases hd
+  rename_i hguard
+  simp only [Option.some.injEq] at hd
+  subst hd
+  have hi : i ∈ r.live := by simpa using hlive
+  have hcnt : ∀ k, countOf { r with core := deleteBalloon r.core i, live := r.live.filter (· != i) } k + (if r.defOf i == k then 1 else 0) = countOf r k := by
+    intro k
+    exact filter_length_erase r.live i (fun j => r.defOf j == k) h.nodup hi
+  refine ⟨h.nodup.filter _, ?_, ?_⟩
+  · intro k hk
+    have h1 := hcnt k
+    have h2 := h.max k hk
+    show countOf { r with core := deleteBalloon r.core i, live := r.live.filter (· != i) } k ≤ (r.defs k).maxB
+    generalize countOf { r with core := deleteBalloon r.core i, live := r.live.filter (· != i) } k = n at h1
+    split at h1 <;> omega
+  · intro k
+    have h1 := hcnt k
+    have h2 := h.min k
+    show (r.defs k).minB ≤ countOf { r with core := deleteBalloon r.core i, live := r.live.filter (· != i) } k
+    generalize countOf { r with core := deleteBalloon r.core i, live := r.live.filter (· != i) } k = n at h1
+    by_cases hk : r.defOf i = k
+    · subst hk
+      simp only [beq_self_eq_true, if_true] at h1
+      have : ¬ countOf r (r.defOf i) ≤ (r.defs (r.defOf i)).minB := hguard
+      omega
+    · have : (r.defOf i == k) = false := by simpa using hk
+      simp only [this, Bool.false_eq_true, if_false] at h1
+      omega
+
+/-- every request preserves the instance limits -/
+theorem inst_step (r : RState) (o : ROp) (hr : RInv r) (h : InstInv r) : InstInv (stepR r o) := by
+  cases o with
+  | assign i c m p =>
+    simp only [stepR]
+    cases hs : assign r i c m p with
+    | none => exact h
+    | some r' => exact inst_of_shape r r' h (assign_shape r r' i c m p hr hs)
+  | dismiss i c p =>
+    simp only [stepR]
+    cases hs : dismiss r i c p with
+    | none => exact h
+    | some r' => exact inst_of_shape r r' h (dismiss_shape r r' i c p hr hs)
+  | create i k p =>
+    simp only [stepR]
+    cases hs : create r i k p with
+    | none => exact h
+    | some r' => exact create_inst r r' i k p hr h hs
+  | delete i =>
+    simp only [stepR]
+    cases hs : delete r i with
+    | none => exact h
+    | some r' => exact delete_inst r r' i h hs
+
+/-- **instance limits over every history**: from any state that satisfies them (the state right after the configured
+MinBalloons instances were created), all requests keep every type within MinBalloons..MaxBalloons -/
+theorem inst_run (r0 : RState) (hr : RInv r0) (h : InstInv r0) (ops : List ROp) :
+    InstInv (ops.foldl stepR r0) ∧ RInv (ops.foldl stepR r0) := by
+  induction ops generalizing r0 with
+  | nil => exact ⟨h, hr⟩
+  | cons o os ih => exact ih _ (rinv_step r0 o hr) (inst_step r0 o hr h)
+
+end Nri.Balloons
+
 /-! ### the source shapes the request-level model was written against (regenerated facts must equal them) -/
 namespace Nri.Balloons.Expect
 def resizeCount : List String := ["oldCpuCount := bln.Cpus.Size()", "newCpuCount := (newMilliCpus + 999) / 1000", "if bln.Def.MaxCpus > NoLimit && newCpuCount > bln.Def.MaxCpus", "> newCpuCount = bln.Def.MaxCpus", "if bln.Def.MinCpus > 0 && newCpuCount < bln.Def.MinCpus", "> newCpuCount = bln.Def.MinCpus", "if oldCpuCount == newCpuCount", "cpuCountDelta := newCpuCount - oldCpuCount", "if cpuCountDelta > 0", "> newCpus, err := p.cpuAllocator.AllocateCpus(&addFromCpus, newCpuCount-oldCpuCount, bln.Def.AllocatorPriority.Value().Option())", "else"]
